@@ -27,6 +27,19 @@ CRAFTED = {
     "lone_keyword.f90": "integer, p",
     "mask_intrinsic.f90": "module mi\n  use iso_fortran_env\ncontains\n  subroutine s()\n    integer :: int32\n  end subroutine s\nend module mi\n",
     "dotted_i.f90": "program pdi\n  character(2) :: s = \"\u0130\u0130\u0130\u0130\", zz\n  zz = s\nend program pdi\n",
+    # one character whose lower-case form is longer, in front of an identifier that ends its line
+    "dotted_i2.f90": "program report\n  implicit none\n  integer :: total\n  total = 3\n  print *, \"\u0130stanbul:\", total\n"
+                     "  print *, '\u0130', total, \"\u0130\u0130\", total\nend program report\n",
+    # a deferred binding whose interface has an undeclared dummy argument (code action on the extending type)
+    "deferred_undeclared.f90": "module du\n  implicit none\n  type, abstract :: base\n  contains\n    procedure(iface), deferred :: run\n  end type base\n"
+                               "  abstract interface\n    subroutine iface(self, n)\n      import base\n      class(base), intent(inout) :: self\n"
+                               "    end subroutine iface\n  end interface\n  type, extends(base) :: child\n  end type child\nend module du\n",
+    # ASSOCIATE names bound to a procedure and to a type name
+    "assoc_proc.f90": "module ap\n  type :: tq\n  end type tq\ncontains\n  subroutine s1()\n  end subroutine s1\n  subroutine u()\n    associate (q => s1, w => tq)\n"
+                      "      print *, q, w\n    end associate\n  end subroutine u\nend module ap\n",
+    # an included entity that clashes with a declaration of the including scope: the diagnostic belongs to a line of the includer
+    "long_inc.f90": "! c\n" * 20 + "integer :: dup\ntype(nosuch_t) :: bad\n",
+    "incl_dup.f90": "subroutine sdup()\n  integer :: dup\n  include 'long_inc.f90'\nend subroutine sdup\n",
     "odd.f90": "subroutine &\n  & s(a, &\n  b)\n  character(len=*) :: a, b ! tail\n  a = 'it''s' // \"q\" ; b = a\n  if (a == b) then ; end if\nend subroutine s\n!> doc\n\n",
 }
 
